@@ -509,27 +509,37 @@ def block_choice_instruction_located_one_way(F, R):
 
 
 def exhausted_sequence_drops_its_choice_point(F, R):
-    """indexed_try/retry keep a choice point for a later entry that is applicable by its first argument; the entry may be
-    a retracted clause. When the call comes back and find_living_dynamic finds nothing alive, the handler must remove that
-    choice point before it fails — backtrack() re-enters the frame at b."""
+    """try_me_else / indexed_try / retry keep a choice point for a later clause that is applicable by its first argument;
+    the clause may be a retracted one. When the call comes back and find_living_dynamic[_else] finds nothing alive, the
+    handler must remove that choice point before it fails — backtrack() re-enters the frame at b. Holds for the three
+    dynamic handlers (DynamicElse, DynamicInternalElse, the first-argument choice sequence)."""
     dl = repo.dispatch_loop(F)
     h = F.hir(dl)
+
+    def pops(body):
+        a = [x for x in walk(body) if x["k"] == "Assign" and x["lhs"].get("k") == "Field" and x["lhs"].get("name") == "b"
+             and any(y.get("k") == "Field" and y.get("name") == "prelude" for y in walk(x["rhs"]))]
+        t = [x for x in walk(body) if x["k"] == "MethodCall" and x["name"] == "truncate" and any(y.get("k") == "Field" and y.get("name") == "stack" for y in walk(x["recv"]))]
+        return bool(a) and bool(t)
+    helpers = [p for p, it in F.items.items() if it["file"] == "src/machine/dispatch.rs" and it["kind"] == "AssocFn" and pops(F.hir(p)["body"])
+               and len(list(walk(F.hir(p)["body"]))) < 80]
     found = []
     for m in matches_in(h["body"], src=None):
         sc = m["scrut"]
-        if sc.get("k") == "MethodCall" and sc.get("name") == "find_living_dynamic" and len(sc.get("args", [])) == 2 \
-                and all(a.get("k") == "Field" and a.get("name") in ("oip", "iip") for a in sc["args"]):
-            found.append(m)
-    if len(found) != 1:
-        raise AnchorLost("dispatch_loop: the match on find_living_dynamic(oip, iip) (%d)" % len(found))
-    none_arms = [a for a in found[0]["arms"] if any((pat_variant(l) or "").endswith("None") for l in pat_leaves(a["pat"]))]
-    if len(none_arms) != 1:
-        raise AnchorLost("find_living_dynamic match: None arm (%d)" % len(none_arms))
-    body = none_arms[0]["body"]
-    pops = [x for x in walk(body) if x["k"] == "Assign" and x["lhs"].get("k") == "Field" and x["lhs"].get("name") == "b"
-            and any(y.get("k") == "Field" and y.get("name") == "prelude" for y in walk(x["rhs"]))]
-    trunc = [x for x in walk(body) if x["k"] == "MethodCall" and x["name"] == "truncate" and any(y.get("k") == "Field" and y.get("name") == "stack" for y in walk(x["recv"]))]
-    trust = [r for _, r, _ in hir_calls(body) if re.search(r"Machine>?::trust(_me)?$", r)]
-    R.ob("C09:dynamic-index:exhausted-sequence-drops-its-choice-point", (bool(pops) and bool(trunc)) or bool(trust),
-         "when no clause of a first-argument sequence is alive any more the handler only sets fail: the choice point that led back here stays, and backtrack() "
-         "re-enters it for ever (retract the only applicable clause behind an inapplicable living one, then call with that key)", "%s (line %s)" % (F.where(dl), none_arms[0]["ln"]))
+        if sc.get("k") != "MethodCall" or sc.get("name") not in ("find_living_dynamic", "find_living_dynamic_else"):
+            continue
+        if any(a.get("k") not in ("Field", "Path") for a in sc.get("args", [])):
+            continue        # a look-ahead (p + next_i, ii + 1): decides retry against trust, not the handler's own clause
+        found.append(m)
+    R.floor("dynamic handlers that look for a living clause", len(found), 3)
+    for k, m in enumerate(found):
+        none_arms = [a for a in m["arms"] if any((pat_variant(l) or "").endswith("None") for l in pat_leaves(a["pat"]))]
+        if len(none_arms) != 1:
+            raise AnchorLost("%s match #%d: None arm (%d)" % (m["scrut"]["name"], k, len(none_arms)))
+        body = none_arms[0]["body"]
+        via_helper = any(r in helpers for _, r, _ in hir_calls(body))
+        trust = any(re.search(r"Machine>?::trust(_me)?$", r) for _, r, _ in hir_calls(body))
+        R.ob("C09:dynamic-index:exhausted-sequence-drops-its-choice-point:%s#%d" % (m["scrut"]["name"], k), pops(body) or via_helper or trust,
+             "when %s finds no living clause the handler only sets fail (line %s): the choice point that led back here stays, and backtrack() re-enters it for ever "
+             "(retract the only applicable clause behind a living inapplicable one, then call with that key)" % (m["scrut"]["name"], none_arms[0]["ln"]),
+             "%s (line %s)" % (F.where(dl), none_arms[0]["ln"]))
